@@ -525,6 +525,74 @@ pub fn run(ctx: &Ctx) -> i32 {
             Err(p) => ev.violate("automaton-panic", format!("query buffer session: {}", p), J::s("query buffer session")),
         }
     }
+    // patterns longer than 65535 bytes (positions no longer fit 16 bits), driven directly: the pattern itself, the pattern with one
+    // byte removed / one foreign byte inserted / one byte replaced near the start, the middle, position 65535/65536 and the end
+    {
+        let r = guard(|| -> Result<u64, String> {
+            let mut n = 0u64;
+            fn is_subseq(p: &[u8], w: &[u8]) -> bool {
+                let mut i = 0;
+                for &c in w {
+                    if i < p.len() && p[i] == c {
+                        i += 1;
+                    }
+                }
+                i == p.len()
+            }
+            for &len in [65_535usize, 65_536, 65_537, 66_000, 131_073].iter() {
+                for shape in 0..3 {
+                    let pat: String = match shape {
+                        0 => (0..len).map(|i| ['a', 'b', 'c', 'd'][(i * i + i / 7) % 4]).collect(),
+                        1 => format!("{}b", "a".repeat(len - 1)),
+                        _ => (0..len).map(|i| (b'a' + (i % 23) as u8) as char).collect(),
+                    };
+                    let pb = pat.as_bytes();
+                    let sub = fst::automaton::Subsequence::new(&pat);
+                    let st = fst::automaton::Str::new(&pat);
+                    let mut inputs: Vec<Vec<u8>> = vec![pb.to_vec(), [pb, pb].concat(), pb[..len - 1].to_vec()];
+                    for &at in [0usize, 1, len / 2, 65_534, 65_535, 65_536, len - 1].iter() {
+                        if at >= len {
+                            continue;
+                        }
+                        let mut w = pb.to_vec();
+                        w.remove(at);
+                        inputs.push(w);
+                        let mut w = pb.to_vec();
+                        w.insert(at, b'#');
+                        inputs.push(w);
+                        let mut w = pb.to_vec();
+                        w[at] = b'#';
+                        inputs.push(w);
+                    }
+                    for w in &inputs {
+                        let mut a = sub.start();
+                        let mut b2 = st.start();
+                        for &c in w.iter() {
+                            a = sub.accept(&a, c);
+                            b2 = st.accept(&b2, c);
+                        }
+                        n += 2;
+                        if sub.is_match(&a) != is_subseq(pb, w) {
+                            return Err(format!("Subsequence over a pattern of {} bytes (shape {}) says {} for an input of {} bytes; the definition says {}", len, shape, sub.is_match(&a), w.len(), is_subseq(pb, w)));
+                        }
+                        if st.is_match(&b2) != (&w[..] == pb) {
+                            return Err(format!("Str over a pattern of {} bytes (shape {}) says {} for an input of {} bytes; the definition says {}", len, shape, st.is_match(&b2), w.len(), &w[..] == pb));
+                        }
+                    }
+                }
+            }
+            Ok(n)
+        });
+        match r {
+            Ok(Ok(n)) => {
+                ev.evaluations += n;
+                ev.distinct_extra += n;
+                ev.add("patterns-longer-than-65535-bytes:inputs-driven", n);
+            }
+            Ok(Err(e)) => ev.violate("language", e, J::s("patterns longer than 65535 bytes")),
+            Err(p) => ev.violate("automaton-panic", format!("patterns longer than 65535 bytes: {}", p), J::s("patterns longer than 65535 bytes")),
+        }
+    }
     ev.note("leaves", J::U(nleaves as u64));
     ev.note("expressions_total", J::U(nexprs as u64));
     let all_visited = ev.get("ref-states-total") == ev.get("ref-states-visited");
@@ -549,7 +617,7 @@ pub fn run(ctx: &Ctx) -> i32 {
         ev,
         Spec {
             level: "exploration",
-            rule: "one evaluation = one (expression, input string): the REAL fst::automaton value (Str, Subsequence, AlwaysMatch, explicit component DFAs with every sound hint assignment, composed through StartsWith/Union/Intersection/Complement/&A) is driven byte by byte and compared with a reference DFA built by textbook constructions: is_match == membership; can_match false only in states from which no accepting state is reachable; will_always_match true only in states from which only accepting states are reachable (both sets exact, by graph reachability, so they quantify over ALL continuations); a third brute-force membership definition must agree with the reference or the run aborts; expressions: all leaves (13 fixed + all <=2-state DFAs over 2 symbols x all sound hints + 3-state samples), all unary over leaves, fixed x all leaves binary both orders, DFA x DFA binary (thorough: complete; quick: 18000 sampled), all unary(unary(leaf)), sampled depth 2 and 3; Str and Subsequence over 31 patterns with characters a tidying constructor might drop, trim, fold or normalise (byte order mark and zero-width characters first/last/inside, blanks, tabs, CR LF, NUL, upper case, precomposed vs decomposed letters, U+FFFD, U+10FFFF), alone, under the unary combinators and in two binary combinations; inputs: all strings over the expression's symbol classes (each used byte + one representative of all other bytes) up to the budgeted length, the short ones replayed with 00/01/20/7f/80/c3/fe/ff in place of the representative, plus a shortest representative of every reference state extended by all strings <=2 (so every reference state is visited: ref-states-visited == ref-states-total); non-trivial = every evaluation; distinct = by construction",
+            rule: "one evaluation = one (expression, input string): the REAL fst::automaton value (Str, Subsequence, AlwaysMatch, explicit component DFAs with every sound hint assignment, composed through StartsWith/Union/Intersection/Complement/&A) is driven byte by byte and compared with a reference DFA built by textbook constructions: is_match == membership; can_match false only in states from which no accepting state is reachable; will_always_match true only in states from which only accepting states are reachable (both sets exact, by graph reachability, so they quantify over ALL continuations); a third brute-force membership definition must agree with the reference or the run aborts; expressions: all leaves (13 fixed + all <=2-state DFAs over 2 symbols x all sound hints + 3-state samples), all unary over leaves, fixed x all leaves binary both orders, DFA x DFA binary (thorough: complete; quick: 18000 sampled), all unary(unary(leaf)), sampled depth 2 and 3; Str and Subsequence over patterns of 65535..131073 bytes driven directly (the pattern, and one byte removed / inserted / replaced around position 65535); Str and Subsequence over 31 patterns with characters a tidying constructor might drop, trim, fold or normalise (byte order mark and zero-width characters first/last/inside, blanks, tabs, CR LF, NUL, upper case, precomposed vs decomposed letters, U+FFFD, U+10FFFF), alone, under the unary combinators and in two binary combinations; inputs: all strings over the expression's symbol classes (each used byte + one representative of all other bytes) up to the budgeted length, the short ones replayed with 00/01/20/7f/80/c3/fe/ff in place of the representative, plus a shortest representative of every reference state extended by all strings <=2 (so every reference state is visited: ref-states-visited == ref-states-total); non-trivial = every evaluation; distinct = by construction",
             assumptions: vec!["component DFAs have sound hints by construction (the statement's premise)".into(), "bytes not used by any leaf behave identically in every leaf, so one representative is exact".into()],
             floors: floors_ref,
             exhaustive: Some(false),
